@@ -7,7 +7,7 @@ From DV Require Import Base.Prelude Model.CacheM Model.CacheSpecM.
 From DV Require Import Proofs.CacheRing Proofs.CacheDict Proofs.CacheLru Proofs.CacheSpec
   Proofs.CacheThm Proofs.CacheSimple Proofs.CacheBasic Proofs.CacheWalk Proofs.CacheConc Proofs.CacheOrder Proofs.CacheGuard.
 From DV Require Model.CacheSkel Model.ResolM Proofs.ResolChain.
-From DV Require Import Model.CacheAnsM Proofs.CacheExpiry.
+From DV Require Import Model.CacheAnsM Proofs.CacheExpiry Proofs.CacheObs.
 
 (* ---- never stale: a lookup returns an answer only if its expiration is strictly later than the
    last clock reading of that lookup (any state, any clock) *)
@@ -295,6 +295,21 @@ Theorem conc_lru_progress : forall m t0 c0 ls cf t c ds,
   exists cf', cstep lru_step cf (LBody t c ds) cf'.
 Proof. exact conc_lru_progress_l. Qed.
 Print Assumptions conc_lru_progress.
+
+(* ---- the runs the harness observes are the runs the theorems quantify over: every harness
+   operation (a call, time passing, "build an Answer now and put it") is one or two items with the
+   same result, world and ghost state, monotone if its increments are *)
+Theorem observed_step_is_item_run : forall (h : hop) (w : lru * Z) g r w' g',
+  hstep_g lru_step lru_gupd h w g = Ok (r, w', g') ->
+  exists its, items_of_hop h w = Ok its /\ lru_grun its w g = Ok (g', w') /\
+              hstep lru_step h w = Ok (r, w').
+Proof. exact (hstep_g_items lru_step lru_gupd). Qed.
+Print Assumptions observed_step_is_item_run.
+
+Theorem observed_step_items_monotone : forall (h : hop) (w : lru * Z) its,
+  mono_hop h -> items_of_hop h w = Ok its -> mono its.
+Proof. exact (@items_of_hop_mono lru). Qed.
+Print Assumptions observed_step_items_monotone.
 
 (* ---- non-vacuity: a concrete history of LRUCache(2) *)
 Definition ex_hist : list item :=
